@@ -1,3 +1,4 @@
+\* C41 quick liveness: 1 channel, 2 items, 1 Stop.  6,484 distinct states, ~40 s.
 \* Liveness (C41): every admitted item eventually has a terminal result and a Stop with a long
 \* deadline eventually returns nil, under weak fairness of the pipeline's own steps, of the
 \* Appender / store answering and of effects finishing.  No state constraint, no VIEW: every
